@@ -51,6 +51,13 @@ def big_corpus():
     out.append(("rsp", "big-rsp-chunked", b"HTTP/1.1 200 OK\r\nTransfer-Encoding: chunked\r\n\r\n" + httpgen.chunked_body([body[:35000], body[35000:]]), False))
     small = b"POST /p HTTP/1.1\r\nHost: h\r\nContent-Length: 1700\r\n\r\n" + body[:1700]
     out.append(("req", "big-req-pipelined-x4", small * 4 + b"GET /q HTTP/1.1\r\nHost: h\r\nX-Pad: " + b"p" * 60000 + b"\r\n\r\n", False))
+    # a header / trailer line one byte below, at and one byte above the line-size limit, cut just before, inside and just after
+    # its CRLF (the "edge-" messages are fed with those three cuts only)
+    for n in (65535, 65536, 65537):
+        line = b"X-Long: " + b"a" * (n - 8)
+        out.append(("req", "edge-req-header-%d" % n, b"GET /p HTTP/1.1\r\nHost: h\r\n" + line + b"\r\n\r\n", False))
+        out.append(("rsp", "edge-rsp-header-%d" % n, b"HTTP/1.1 200 OK\r\nContent-Length: 0\r\n" + line + b"\r\n\r\n", False))
+        out.append(("rsp", "edge-rsp-trailer-%d" % n, b"HTTP/1.1 200 OK\r\nTransfer-Encoding: chunked\r\n\r\n1\r\nz\r\n0\r\n" + line + b"\r\n\r\n", False))
     return out
 
 
@@ -114,9 +121,16 @@ def _brief(r):
 def run_big(i, reads):
     kind, label, data, closes = big_corpus()[i]
     base = httpgen.drive(kind, (data,), close_at_end=closes, maxmsgs=8)
-    frags = [data[k:k + reads] for k in range(0, len(data), reads)]
+    if reads < 0:      # one cut: just before (-1), inside (-2) or just after (-3) the CRLF of the long line
+        cut = data.index(b"\r\n", data.index(b"X-Long")) + (-reads - 1)
+        frags = [data[:cut], data[cut:]]
+    else:
+        frags = [data[k:k + reads] for k in range(0, len(data), reads)]
     got = httpgen.drive(kind, frags, close_at_end=closes, maxmsgs=8)
     if got != base:
+        if reads < 0:
+            return [("frag:line-limit:%s:%s" % (kind, classify(label, base, got)), "%s cut %s the CRLF of its long line differs from one-shot: one-shot %r ; fragmented %r"
+                     % (label, {-1: "just before", -2: "inside", -3: "just after"}[reads], _brief(base), _brief(got)))]
         return [("frag:big:%s:%s" % (kind, classify(label, base, got)), "%s (%d bytes) fed in %d-byte reads differs from one-shot: one-shot %r ; fragmented %r"
                  % (label, len(data), reads, _brief(base), _brief(got)))]
     return []
@@ -125,7 +139,7 @@ def run_big(i, reads):
 def run_job(job, tier, seed):
     acc = Acc(job)
     if job[0] == "C13big":
-        for reads in (4096, 65536, 1000, 70000 - 1, 33):
+        for reads in ((-1, -2, -3) if big_corpus()[job[1]][1].startswith("edge-") else (4096, 65536, 1000, 70000 - 1, 33)):
             viols = run_big(job[1], reads)
             acc.case(["big", job[1], reads], (job[1], reads, not viols), viols, sample=dict(message=big_corpus()[job[1]][1], reads=reads))
         return acc.result()
